@@ -17,6 +17,15 @@ def parse_outcomes(s):
     return out
 
 
+def judge_text(text):
+    """well-formedness of a .qasm file (None = fine)"""
+    try:
+        qasmlib.parse(text)
+    except ValueError as e:
+        return "not well-formed OpenQASM 2.0: %s" % e
+    return None
+
+
 def judge(res):
     """C05 oracle on one result line of the real pipeline (None = fine)"""
     d = evallib.split_result(res)
@@ -102,6 +111,20 @@ def run(chk):
                 why = "--emit-qasm prints something else than the .qasm file written next to the source"
             if why and bad is None:
                 bad = (src, ds, why, impl[i])
+            # multi-shot runs write the same file whether or not the text is also printed
+            if file_checked <= (40 if chk.thorough else 8) and "main()" in src and "@shots" not in src:
+                dr = evallib.draws_arg(ds) if ds else None
+                rc1, _o1, e1, q1 = c17.run_cli(exe, work, src, ["--shots=3"], draws=dr)
+                rc2, o2, e2, q2 = c17.run_cli(exe, work, src, ["--shots=3", "--emit-qasm"], draws=dr)
+                why = None
+                if rc1 != rc2:
+                    why = "a 3-shot run exits with %d without --emit-qasm and %d with it" % (rc1, rc2)
+                elif rc1 == 0 and q1 != q2:
+                    why = "a 3-shot run writes a different .qasm file with and without --emit-qasm (%d vs %d bytes)" % (len(q1), len(q2))
+                elif rc1 == 0 and judge_text(q1):
+                    why = "the .qasm file of a 3-shot run: " + judge_text(q1)
+                if why and bad is None:
+                    bad = (src, ds, why, impl[i])
     finally:
         shutil.rmtree(work, ignore_errors=True)
     chk.extra["file_vs_stdout_runs"] = file_checked
